@@ -250,6 +250,18 @@ Shift(t, o) == [k \in 1..Len(t) |-> <<t[k][1], t[k][2] + o>>]
 \* term_correlation_function_right: T = T_L . T_R with all sites of T_L left of all sites of T_R (split after position h)
 SplitOK(t, h) == \A a \in 1..h, b \in (h + 1)..Len(t) : t[a][2] < t[b][2]
 
+\* The correlation-function family  term_correlation_function_right / _left (fixed T_R resp. T_L, the other one moved
+\* over a list of offsets) and term_list_correlation_function_right (sums  sum_k a_k T_L,k  and  sum_l b_l T_R,l):
+\* every returned number is  <bra| T_L T_R |ket>  of the product term at those offsets, resp. the bilinear sum
+\*      sum_{k,l} a_k b_l <bra| T_L,k T_R,l |ket>;
+\* the product terms are themselves states of this model, so their matrices are `last.mat` of those states.
+
+\* An *explicit* op_string given to multi_coupling_term_handle_JW is inserted on every segment between the operators
+\* (the operators themselves are unchanged) -- also when no operator is fermionic.
+ExplicitPer(gr, opstr) ==
+    [i \in Sites |-> IF \E x \in 1..Len(gr) : gr[x].g = i THEN NamesOf(gr[CHOOSE x \in 1..Len(gr) : gr[x].g = i].ops)
+                      ELSE IF gr[1].g < i /\ i < gr[Len(gr)].g THEN <<opstr>> ELSE <<>>]
+
 \* Layer 2e: MPS.correlation_function(ops1, ops2, [i], [j]) with autoJW  (term = <<A_i, B_j>>)
 CorrPer(t) ==
     LET a == t[1][1]  i == t[1][2]  b == t[2][1]  j == t[2][2]  jw == NeedsJW(a) IN
@@ -278,6 +290,8 @@ Describe(t, mat) ==
         tol   |-> LET r == TermOps(t) IN [imin |-> r.imin, extra |-> r.extra,
                                           ops |-> [k \in 1..(r.imax - r.imin + 1) |-> r.per[r.imin + k - 1]]],
         splits |-> {h \in 1..(Len(t) - 1) : SplitOK(t, h)},
+        xjw   |-> IF Len(gr) >= 3 /\ \A k \in 1..Len(t) : ~NeedsJW(t[k][1])
+                  THEN [x \in BasisIdx |-> ScaleM(oc.sg, Tensor(ExplicitPer(gr, "JW")))[x]] ELSE <<>>,
         hc    |-> [k \in 1..Len(t) |-> <<HcName(t[Len(t) + 1 - k][1]), t[Len(t) + 1 - k][2]>>]]
 
 Init == term = <<>> /\ last = [len |-> 0, mat |-> IDM]
@@ -363,6 +377,18 @@ OrderCombineCorrect ==
 \* documented contract of order_combine_term: product(term) * sign = product(combined term)
 OrderCombineContract ==
     Len(term) >= 1 => ScaleM(last.oc.sg, last.mat) = FockMat(last.oc.t)
+
+\* TermList histories: order_combine is idempotent (a second call on the sorted list leaves terms and prefactor alone)
+\* and commutes with TermList.shift; so a list, its shifted copies and lists built from the same prefactor array must
+\* each carry  strength * sign  exactly once (which requires that no two of them share the array: the constructor copies)
+OrderCombineIdempotent ==
+    Len(term) >= 1 => OrderCombine(last.oc.t, 1) = [t |-> last.oc.t, sg |-> 1]
+OrderCombineShift ==
+    (Len(term) >= 1 /\ L > 1) =>
+        LET k == L - 1 - IMax(term)  oc == OrderCombine(Shift(term, k), 1) IN oc.t = Shift(last.oc.t, k) /\ oc.sg = last.oc.sg
+\* products of terms: T = T_L . T_R for every split (what the correlation-function family evaluates piecewise)
+SplitProduct ==
+    \A h \in 1..(Len(term) - 1) : Mul(FockMat(SubSeq(term, 1, h)), FockMat(SubSeq(term, h + 1, Len(term)))) = last.mat
 
 \* the JW route (plain chain and chains of GroupedSites of 2 and 3 sites) is the genuine fermionic product
 JWRouteCorrect ==
